@@ -679,15 +679,18 @@ def _register_structure_hooks_recursively(cls: type[Any], visited: set[type[Any]
     # Recursively register hooks for nested dataclass fields
     try:
         type_hints = get_type_hints(cls)
+        type_hints_with_extras = get_type_hints(cls, include_extras=True)
     except Exception:
         # If type hints cannot be resolved (e.g. missing imports), fall back to field.type
         type_hints = {}
+        type_hints_with_extras = {}
 
     for field in dataclasses.fields(cls):
         # Use resolved type hint if available, otherwise raw field type
         field_type = type_hints.get(field.name, field.type)
-        # cattrs reads field.type and leaves a quoted name inside a generic (List["Node"]) unresolved: hand it the resolved hint
-        field.type = field_type
+        # cattrs reads field.type and leaves a quoted name inside a generic (List["Node"]) unresolved: hand it the
+        # resolved hint (with Annotated metadata such as union discriminators kept)
+        field.type = type_hints_with_extras.get(field.name, field.type)
 
         # Handle direct dataclass types
         if isinstance(field_type, type) and dataclasses.is_dataclass(field_type):
@@ -871,15 +874,18 @@ def _register_unstructure_hooks_recursively(cls: type[Any], visited: set[type[An
 
     try:
         type_hints = get_type_hints(cls)
+        type_hints_with_extras = get_type_hints(cls, include_extras=True)
     except Exception:
         # If type hints cannot be resolved (e.g. missing imports), fall back to field.type
         type_hints = {}
+        type_hints_with_extras = {}
 
     for field in dataclasses.fields(cls):
         # Use resolved type hint if available, otherwise raw field type
         field_type = type_hints.get(field.name, field.type)
-        # cattrs reads field.type and leaves a quoted name inside a generic (List["Node"]) unresolved: hand it the resolved hint
-        field.type = field_type
+        # cattrs reads field.type and leaves a quoted name inside a generic (List["Node"]) unresolved: hand it the
+        # resolved hint (with Annotated metadata such as union discriminators kept)
+        field.type = type_hints_with_extras.get(field.name, field.type)
 
         # Handle direct dataclass types
         if isinstance(field_type, type) and dataclasses.is_dataclass(field_type):
